@@ -841,7 +841,8 @@ def main(run):
         run.log("second search: 3 derived handles, reduced alphabet")
         s3 = System(["f64_2x3", "bool_2x2x2"], ["idx0", "view", "T", "ndview", "copy"], QUICK_ROUTES, max_derived=3, max_view_depth=2)
         s3._blind = blind
-        deeper = explorer.bfs(s3, run, max_depth=3 if blind else 40)
+        # three derived handles x freeze states do not close in reasonable time: capped (reported, not "exhaustive")
+        deeper = explorer.bfs(s3, run, max_depth=3 if blind else 40, state_cap=250000)
     cases = _container_cases(tier)
     chunks = [cases[i::64] for i in range(64)]
     run.merge(harness.pmap(_container_worker, chunks))
@@ -856,6 +857,7 @@ def main(run):
         "container_programs": len(cases),
         "state_abstraction": "histories (private bookkeeping not observable), bounded depth 3" if blind else "generic: every instance attribute of the array and of the tracked arrays it views, reduced to flag / None / valid / stale",
         "exhaustive": bool(r["frontier_closed"]),
+        "caps": (f"second search (3 derived handles): state cap reached at depth {deeper['depth_completed']} with {deeper['states']} states; complete below that depth" if deeper and deeper.get("capped") else "none"),
         "samples": [
             {"start": "f64_2x3", "history": [["view", "idx0", 0], ["hash", 0], ["write", "setitem_item", 1], ["hash", 0]]},
         ] + run.tally.samples[:3],
